@@ -13,6 +13,7 @@ import (
 	"flag"
 	"fmt"
 	"io"
+	"math"
 	"os"
 	"os/exec"
 	"sort"
@@ -75,6 +76,7 @@ type Event struct {
 	I       int   `json:"i,omitempty"`
 	A       int   `json:"a,omitempty"`
 	V       int64 `json:"v,omitempty"`
+	NF      int   `json:"nf,omitempty"` // float64 instruments only: 1 = +Inf, 2 = -Inf, 3 = NaN recorded instead of V
 }
 
 type Scenario struct {
@@ -93,6 +95,7 @@ type PointObs struct {
 	Attrs []KV  `json:"a"`
 	Val   int64 `json:"v"`
 	Cnt   uint64 `json:"c"`
+	NF    bool   `json:"nf,omitempty"` // the reported value (sum / last value) is NaN or an infinity
 }
 
 type MetricObs struct {
@@ -163,13 +166,32 @@ func aggregationOf(n int) sdkmetric.Aggregation {
 	return nil
 }
 
-type recorder interface {
-	record(ctx context.Context, v int64, s attribute.Set)
+// mval is one measurement value: the integer, and what a float64 instrument records for it
+// (the same integer, or a non-finite value).
+type mval struct {
+	i int64
+	f float64
 }
 
-type recFn func(ctx context.Context, v int64, s attribute.Set)
+func mkval(v int64, nf int) mval {
+	switch nf {
+	case 1:
+		return mval{v, math.Inf(1)}
+	case 2:
+		return mval{v, math.Inf(-1)}
+	case 3:
+		return mval{v, math.NaN()}
+	}
+	return mval{v, float64(v)}
+}
 
-func (f recFn) record(ctx context.Context, v int64, s attribute.Set) { f(ctx, v, s) }
+type recorder interface {
+	record(ctx context.Context, v mval, s attribute.Set)
+}
+
+type recFn func(ctx context.Context, v mval, s attribute.Set)
+
+func (f recFn) record(ctx context.Context, v mval, s attribute.Set) { f(ctx, v, s) }
 
 type staged struct {
 	inst int
@@ -241,28 +263,28 @@ func runScenario(sc Scenario) (res Result) {
 		switch {
 		case is.Kind == 1 && !is.Float:
 			c, _ := m.Int64Counter(is.Name, metric.WithDescription(d), metric.WithUnit(u))
-			recs[idx] = recFn(func(ctx context.Context, v int64, s attribute.Set) { c.Add(ctx, v, metric.WithAttributeSet(s)) })
+			recs[idx] = recFn(func(ctx context.Context, v mval, s attribute.Set) { c.Add(ctx, v.i, metric.WithAttributeSet(s)) })
 		case is.Kind == 1:
 			c, _ := m.Float64Counter(is.Name, metric.WithDescription(d), metric.WithUnit(u))
-			recs[idx] = recFn(func(ctx context.Context, v int64, s attribute.Set) { c.Add(ctx, float64(v), metric.WithAttributeSet(s)) })
+			recs[idx] = recFn(func(ctx context.Context, v mval, s attribute.Set) { c.Add(ctx, v.f, metric.WithAttributeSet(s)) })
 		case is.Kind == 2 && !is.Float:
 			c, _ := m.Int64UpDownCounter(is.Name, metric.WithDescription(d), metric.WithUnit(u))
-			recs[idx] = recFn(func(ctx context.Context, v int64, s attribute.Set) { c.Add(ctx, v, metric.WithAttributeSet(s)) })
+			recs[idx] = recFn(func(ctx context.Context, v mval, s attribute.Set) { c.Add(ctx, v.i, metric.WithAttributeSet(s)) })
 		case is.Kind == 2:
 			c, _ := m.Float64UpDownCounter(is.Name, metric.WithDescription(d), metric.WithUnit(u))
-			recs[idx] = recFn(func(ctx context.Context, v int64, s attribute.Set) { c.Add(ctx, float64(v), metric.WithAttributeSet(s)) })
+			recs[idx] = recFn(func(ctx context.Context, v mval, s attribute.Set) { c.Add(ctx, v.f, metric.WithAttributeSet(s)) })
 		case is.Kind == 3 && !is.Float:
 			c, _ := m.Int64Histogram(is.Name, metric.WithDescription(d), metric.WithUnit(u))
-			recs[idx] = recFn(func(ctx context.Context, v int64, s attribute.Set) { c.Record(ctx, v, metric.WithAttributeSet(s)) })
+			recs[idx] = recFn(func(ctx context.Context, v mval, s attribute.Set) { c.Record(ctx, v.i, metric.WithAttributeSet(s)) })
 		case is.Kind == 3:
 			c, _ := m.Float64Histogram(is.Name, metric.WithDescription(d), metric.WithUnit(u))
-			recs[idx] = recFn(func(ctx context.Context, v int64, s attribute.Set) { c.Record(ctx, float64(v), metric.WithAttributeSet(s)) })
+			recs[idx] = recFn(func(ctx context.Context, v mval, s attribute.Set) { c.Record(ctx, v.f, metric.WithAttributeSet(s)) })
 		case is.Kind == 7 && !is.Float:
 			c, _ := m.Int64Gauge(is.Name, metric.WithDescription(d), metric.WithUnit(u))
-			recs[idx] = recFn(func(ctx context.Context, v int64, s attribute.Set) { c.Record(ctx, v, metric.WithAttributeSet(s)) })
+			recs[idx] = recFn(func(ctx context.Context, v mval, s attribute.Set) { c.Record(ctx, v.i, metric.WithAttributeSet(s)) })
 		case is.Kind == 7:
 			c, _ := m.Float64Gauge(is.Name, metric.WithDescription(d), metric.WithUnit(u))
-			recs[idx] = recFn(func(ctx context.Context, v int64, s attribute.Set) { c.Record(ctx, float64(v), metric.WithAttributeSet(s)) })
+			recs[idx] = recFn(func(ctx context.Context, v mval, s attribute.Set) { c.Record(ctx, v.f, metric.WithAttributeSet(s)) })
 		case is.Kind == 4 && !is.Float:
 			o, _ := m.Int64ObservableCounter(is.Name, metric.WithDescription(d), metric.WithUnit(u))
 			obsI[idx] = o
@@ -321,7 +343,7 @@ func runScenario(sc Scenario) (res Result) {
 	for _, ev := range sc.Events {
 		if !ev.Collect {
 			if recs[ev.I] != nil {
-				recs[ev.I].record(ctx, ev.V, sets[ev.A])
+				recs[ev.I].record(ctx, mkval(ev.V, ev.NF), sets[ev.A])
 			} else {
 				pending = append(pending, staged{ev.I, ev.V, sets[ev.A]})
 			}
@@ -340,7 +362,12 @@ func runScenario(sc Scenario) (res Result) {
 	return res
 }
 
+func nonFinite(f float64) bool { return math.IsNaN(f) || math.IsInf(f, 0) }
+
 func f2i(f float64, res *Result) int64 {
+	if nonFinite(f) {
+		return 0 // flagged through PointObs.NF by the caller
+	}
 	n := int64(f)
 	if float64(n) != f {
 		res.Odd = fmt.Sprintf("inexact float value %v", f)
@@ -371,22 +398,22 @@ func extract(rm *metricdata.ResourceMetrics, res *Result) []MetricObs {
 			case metricdata.Sum[int64]:
 				mo.Meta = monoFlag(d.IsMonotonic) + deltaFlag(d.Temporality)
 				for _, p := range d.DataPoints {
-					mo.Points = append(mo.Points, PointObs{canonSet(p.Attributes), p.Value, 0})
+					mo.Points = append(mo.Points, PointObs{canonSet(p.Attributes), p.Value, 0, false})
 				}
 			case metricdata.Sum[float64]:
 				mo.Meta = monoFlag(d.IsMonotonic) + deltaFlag(d.Temporality)
 				for _, p := range d.DataPoints {
-					mo.Points = append(mo.Points, PointObs{canonSet(p.Attributes), f2i(p.Value, res), 0})
+					mo.Points = append(mo.Points, PointObs{canonSet(p.Attributes), f2i(p.Value, res), 0, nonFinite(p.Value)})
 				}
 			case metricdata.Gauge[int64]:
 				mo.Meta = 1
 				for _, p := range d.DataPoints {
-					mo.Points = append(mo.Points, PointObs{canonSet(p.Attributes), p.Value, 0})
+					mo.Points = append(mo.Points, PointObs{canonSet(p.Attributes), p.Value, 0, false})
 				}
 			case metricdata.Gauge[float64]:
 				mo.Meta = 1
 				for _, p := range d.DataPoints {
-					mo.Points = append(mo.Points, PointObs{canonSet(p.Attributes), f2i(p.Value, res), 0})
+					mo.Points = append(mo.Points, PointObs{canonSet(p.Attributes), f2i(p.Value, res), 0, nonFinite(p.Value)})
 				}
 			case metricdata.Histogram[int64]:
 				mo.Meta = 2 + deltaFlag(d.Temporality)
@@ -398,7 +425,7 @@ func extract(rm *metricdata.ResourceMetrics, res *Result) []MetricObs {
 					if bc != p.Count {
 						res.Odd = fmt.Sprintf("histogram bucket counts add up to %d, Count is %d", bc, p.Count)
 					}
-					mo.Points = append(mo.Points, PointObs{canonSet(p.Attributes), p.Sum, p.Count})
+					mo.Points = append(mo.Points, PointObs{canonSet(p.Attributes), p.Sum, p.Count, false})
 				}
 			case metricdata.Histogram[float64]:
 				mo.Meta = 2 + deltaFlag(d.Temporality)
@@ -410,17 +437,17 @@ func extract(rm *metricdata.ResourceMetrics, res *Result) []MetricObs {
 					if bc != p.Count {
 						res.Odd = fmt.Sprintf("histogram bucket counts add up to %d, Count is %d", bc, p.Count)
 					}
-					mo.Points = append(mo.Points, PointObs{canonSet(p.Attributes), f2i(p.Sum, res), p.Count})
+					mo.Points = append(mo.Points, PointObs{canonSet(p.Attributes), f2i(p.Sum, res), p.Count, nonFinite(p.Sum)})
 				}
 			case metricdata.ExponentialHistogram[int64]:
 				mo.Meta = 3 + deltaFlag(d.Temporality)
 				for _, p := range d.DataPoints {
-					mo.Points = append(mo.Points, PointObs{canonSet(p.Attributes), p.Sum, p.Count})
+					mo.Points = append(mo.Points, PointObs{canonSet(p.Attributes), p.Sum, p.Count, false})
 				}
 			case metricdata.ExponentialHistogram[float64]:
 				mo.Meta = 3 + deltaFlag(d.Temporality)
 				for _, p := range d.DataPoints {
-					mo.Points = append(mo.Points, PointObs{canonSet(p.Attributes), f2i(p.Sum, res), p.Count})
+					mo.Points = append(mo.Points, PointObs{canonSet(p.Attributes), f2i(p.Sum, res), p.Count, nonFinite(p.Sum)})
 				}
 			default:
 				res.Odd = fmt.Sprintf("unknown metric data type %T", md.Data)
@@ -1001,7 +1028,11 @@ func genHistory(r *vgen.Rand, sc *Scenario, maxPerCycle int) {
 			if r.Chance(1, 25) {
 				v = v * (1 << 33)
 			}
-			sc.Events = append(sc.Events, Event{I: i, A: a, V: v})
+			nf := 0
+			if is := sc.Insts[i]; is.Float && (is.Kind <= 3 || is.Kind == 7) && r.Chance(1, 9) {
+				nf = 1 + r.Intn(3)
+			}
+			sc.Events = append(sc.Events, Event{I: i, A: a, V: v, NF: nf})
 		}
 		sc.Events = append(sc.Events, Event{Collect: true})
 	}
@@ -1098,6 +1129,26 @@ func corpus() []Scenario {
 		Views: []ViewSpec{{CName: "g", Agg: 5}}, Pool: [][]KV{id(0)},
 		Events: []Event{{I: 0, A: 0, V: 44}, {I: 1, A: 0, V: 3}, {Collect: true}, {I: 1, A: 0, V: 5}, {Collect: true}},
 		Note:   "F-C12-2: stale Sum through a reused ResourceMetrics"})
+	// non-finite float64 measurements: counted by the explicit histogram (NaN/+Inf in the last bucket, -Inf in the first),
+	// discarded by the exponential histogram (the set is not even admitted), added by sums, stored by gauges
+	nfIn := []InstSpec{{Name: "h", Kind: 3, Float: true}, {Name: "g", Kind: 7, Float: true}, {Name: "c", Kind: 1, Float: true}, {Name: "u", Kind: 2, Float: true}}
+	nfEv := []Event{{I: 0, A: 0, V: 5}, {I: 0, A: 1, V: 1, NF: 3}, {I: 0, A: 2, V: 1, NF: 1}, {I: 0, A: 0, V: 1, NF: 2}, {I: 0, A: 1, V: 7},
+		{I: 1, A: 0, V: 3}, {I: 1, A: 1, V: 1, NF: 3}, {I: 2, A: 2, V: 1, NF: 1}, {I: 2, A: 0, V: 4}, {I: 3, A: 1, V: 1, NF: 2}, {I: 3, A: 1, V: -2}, {Collect: true},
+		{I: 0, A: 2, V: 1, NF: 3}, {I: 0, A: 1, V: 2}, {I: 2, A: 0, V: 6}, {I: 1, A: 2, V: 9}, {Collect: true}}
+	for _, tm := range []uint64{0, 0xfe} {
+		for _, L := range []int{0, 2} {
+			env := ""
+			if L > 0 {
+				env = strconv.Itoa(L)
+			}
+			out = append(out, Scenario{L: L, Env: env, TMask: tm, Insts: nfIn, Pool: [][]KV{ab(0, 0), ab(0, 1), ab(1, 0)}, Events: nfEv,
+				Views: []ViewSpec{{CName: "h"}, {CName: "h", MName: "h.exp", Agg: 6}, {CName: "h", MName: "h.flt", Filter: true, Keys: []string{"a"}},
+					{CName: "c", Agg: 5}, {CName: "u", Agg: 6}, {CName: "g", Agg: 5}},
+				Note: "NaN and infinities on float64 histogram / gauge / counter streams under a limit, a filter and re-aggregating views"})
+			out = append(out, Scenario{L: L, Env: env, TMask: tm, Insts: nfIn, Pool: [][]KV{ab(0, 0), ab(0, 1), ab(1, 0)}, Events: nfEv,
+				Note: "NaN and infinities, default views"})
+		}
+	}
 	// scopes: the same instrument on two meters; views restricted to one scope must leave the other alone
 	two := []InstSpec{{Name: "req", Kind: 1, SName: "lib-a", SVer: "1.0"}, {Name: "req", Kind: 1, SName: "lib-b", SVer: "1.0"},
 		{Name: "req", Kind: 1, SName: "lib-a", SVer: "2.0", SURL: "https://s/1"}}
@@ -1135,6 +1186,27 @@ func strList(xs []string) string {
 	return vgen.List(items)
 }
 
+// Non-finite values as the integers Defs.is_nf recognises: +Inf = 2^70, -Inf = 2^80, NaN = 2^90; every
+// non-finite reported value is written as 2^70 (only its being non-finite is compared).
+func valCoq(v int64, nf int) string {
+	switch nf {
+	case 1:
+		return vgen.ZBig("1180591620717411303424")
+	case 2:
+		return vgen.ZBig("1208925819614629174706176")
+	case 3:
+		return vgen.ZBig("1237940039285380274899124224")
+	}
+	return vgen.Z(v)
+}
+
+func obsValCoq(p PointObs) string {
+	if p.NF {
+		return vgen.ZBig("1180591620717411303424")
+	}
+	return vgen.Z(p.Val)
+}
+
 func caseTerm(sc Scenario, res Result) string {
 	var views, insts, pool, evs, obs []string
 	for _, v := range sc.Views {
@@ -1156,7 +1228,7 @@ func caseTerm(sc Scenario, res Result) string {
 		if e.Collect {
 			evs = append(evs, "C")
 		} else {
-			evs = append(evs, vgen.App("M", vgen.N(uint64(e.I)), vgen.N(uint64(e.A)), vgen.Z(e.V)))
+			evs = append(evs, vgen.App("M", vgen.N(uint64(e.I)), vgen.N(uint64(e.A)), valCoq(e.V, e.NF)))
 		}
 	}
 	for _, ms := range res.Obs {
@@ -1164,7 +1236,7 @@ func caseTerm(sc Scenario, res Result) string {
 		for _, m := range ms {
 			var pts []string
 			for _, p := range m.Points {
-				pts = append(pts, vgen.Pair(setCoq(p.Attrs), vgen.Pair(vgen.Z(p.Val), vgen.N(p.Cnt))))
+				pts = append(pts, vgen.Pair(setCoq(p.Attrs), vgen.Pair(obsValCoq(p), vgen.N(p.Cnt))))
 			}
 			mts = append(mts, vgen.Pair(vgen.Pair(vgen.HxS(m.Name), vgen.N(uint64(m.Meta))), vgen.List(pts)))
 		}
